@@ -60,9 +60,9 @@ Theorem C20_cr_only_refuted :
 Proof. exact split_vs_spec_cr_only_refuted. Qed.
 Print Assumptions C20_cr_only_refuted.
 
-(* F24: an empty front matter (closer right after the opener) is not recognised *)
+(* F25: an empty front matter (closer right after the opener) is not recognised *)
 Theorem C20_empty_front_matter_refuted :
-  split_off_front_matter w_f24 w_d = Ok None /\
-  (exists fm rest, spec_split w_f24 w_d = Some (fm, rest)) /\ fm_class w_f24 w_d = 2%N.
+  split_off_front_matter w_f25 w_d = Ok None /\
+  (exists fm rest, spec_split w_f25 w_d = Some (fm, rest)) /\ fm_class w_f25 w_d = 2%N.
 Proof. exact split_vs_spec_empty_fm_refuted. Qed.
 Print Assumptions C20_empty_front_matter_refuted.
